@@ -301,7 +301,11 @@ var readerEntries = []string{"reader", "readmessage", "readdata", "reader-discar
 // runMessages checks one message sequence on every entry point.
 func runMessages(c *mon.C, ms []msg, side ref.Side, nplans int, payloadMarks ...int) bool {
 	frames := buildFrames(c, ms, side)
-	stream, _, marks := gen.Encode(frames)
+	stream, starts, marks := gen.Encode(frames)
+	// places where a fault that consumes nothing (an expired read deadline) can fall so that a retry finds the
+	// stream where it was: in front of a frame header (inside a header or an intermediate control frame the
+	// library cannot resume, and no property says it must)
+	faultAt := append([]int(nil), starts...)
 	if len(payloadMarks) > 0 && len(frames) == 1 {
 		// transport read boundaries inside the payload of a single-frame message
 		hdr := len(stream) - len(frames[0].Payload)
@@ -374,7 +378,15 @@ func runMessages(c *mon.C, ms []msg, side ref.Side, nplans int, payloadMarks ...
 			if pi == nplans-1 && nplans > 1 && len(payloadMarks) == 0 {
 				o.Wrap = drive.Wraps[(c.I+ei+len(stream))%len(drive.Wraps)]
 			}
-			obs := drive.Run(xport.NewChunker(stream, plan), o)
+			var src io.Reader = xport.NewChunker(stream, plan)
+			o.Retry = false
+			if entry == "reader" && pi == 0 && nplans > 1 && len(payloadMarks) == 0 {
+				// a deadline-driven read loop: ONE read of the transport times out (nothing consumed) between two
+				// frames or inside a payload, the consumer calls again - the verdict on the message is the same
+				o.Retry, o.Wrap = true, ""
+				src = &xport.Transient{R: src, At: faultAt[(c.I+ei+len(stream))%len(faultAt)], Err: xport.ErrTimeout}
+			}
+			obs := drive.Run(src, o)
 			// compare data messages only (control events are C04's business)
 			var got []ref.Event
 			for _, e := range obs.Events {
@@ -387,7 +399,7 @@ func runMessages(c *mon.C, ms []msg, side ref.Side, nplans int, payloadMarks ...
 				for _, m := range ms {
 					d = append(d, fmt.Sprintf("op=%x payload=% x cuts=%b empties=%b pings=%b emptyFinal=%v valid=%v", m.op, m.payload, m.cuts, m.empties, m.pings, m.emptyFinal, utf8.Valid(m.payload)))
 				}
-				return map[string]interface{}{"messages": d, "side": side, "entry": entry, "plan": plan.String(), "buf": o.Buf, "source": o.Wrap, "got": drive.EventStrings(got), "want": drive.EventStrings(want), "err": fmt.Sprint(obs.Err), "want_err": fmt.Sprint(wantErr)}
+				return map[string]interface{}{"messages": d, "side": side, "entry": entry, "plan": plan.String(), "buf": o.Buf, "source": o.Wrap, "timeout_then_retry": o.Retry, "calls_repeated": obs.Retried, "got": drive.EventStrings(got), "want": drive.EventStrings(want), "err": fmt.Sprint(obs.Err), "want_err": fmt.Sprint(wantErr)}
 			}
 			if skipFirst && firstBad == 0 && len(got) == 0 && obs.Err == wsutil.ErrInvalidUTF8 && (len(ms[0].payload) == 1 || invalidLead(ms[0].payload[0])) {
 				// the one byte read before Discard is already not UTF-8, or it is the whole
